@@ -296,22 +296,33 @@ func randUnknownFields(r *rand.Rand, lo, span, n int) []byte {
 	return b
 }
 
-// walkStructs calls f on every struct node of the tree (pre-order).
+// walkStructs calls f on every struct node that the tree has when the walk starts (pre-order).
+// The nodes are collected first: f may add fields (decorate does), and values added by f must not be
+// visited in turn — otherwise every added struct value is decorated again and the tree can grow
+// without bound (this made one thorough run of the unchanged tree run out of memory).
 func (v *TV) walkStructs(f func(s *TV)) {
+	var nodes []*TV
+	v.collectStructs(&nodes)
+	for _, n := range nodes {
+		f(n)
+	}
+}
+
+func (v *TV) collectStructs(out *[]*TV) {
 	switch v.T {
 	case tSTRUCT:
-		f(v)
+		*out = append(*out, v)
 		for _, x := range v.Fields {
-			x.V.walkStructs(f)
+			x.V.collectStructs(out)
 		}
 	case tMAP:
 		for i := range v.Keys {
-			v.Keys[i].walkStructs(f)
-			v.Elems[i].walkStructs(f)
+			v.Keys[i].collectStructs(out)
+			v.Elems[i].collectStructs(out)
 		}
 	case tSET, tLIST:
 		for _, e := range v.Elems {
-			e.walkStructs(f)
+			e.collectStructs(out)
 		}
 	}
 }
